@@ -932,6 +932,8 @@ class Interp:
                 return self.inline(f, args, p, n)
             if name in ('to_string',):
                 return [(q, StrV('to_string', vals[0])) for q, vals in self.eval_args(args, p)]
+            if name == 'eof' and not args:
+                return [(p, const(32, 0xFFFFFFFF))]          # std::char_traits<char>::eof() == EOF == -1
             raise AnalysisBroken('unmodelled call of %s at %s' % (name, pos(n)))
         raise AnalysisBroken('unresolved call at %s' % pos(n))
 
